@@ -308,6 +308,240 @@ func (s *decScope) bounded(v ssa.Value, at *ssa.BasicBlock, depth int) (bool, st
 	return false, fmt.Sprintf("%s (%T)", v.Name(), v)
 }
 
+// nonNegative: v >= 0 at block `at`, by construction or by a dominating test.
+func (s *decScope) nonNegative(v ssa.Value, at *ssa.BasicBlock, depth int) (bool, string) {
+	if depth > 8 {
+		return false, "too deep"
+	}
+	if at != nil && lowerBoundedAt(at, v, nil) {
+		return true, "passed a non-negativity test on every path"
+	}
+	if at != nil && equalsLenMinus(at, v) {
+		return true, "equal to len(x)-k of a slice known to have at least k elements"
+	}
+	switch x := v.(type) {
+	case *ssa.Const:
+		if k, ok := constInt(x); ok && k >= 0 {
+			return true, "non-negative constant"
+		}
+		return false, "negative constant"
+	case *ssa.Convert:
+		if b, ok := x.X.Type().Underlying().(*types.Basic); ok && b.Info()&types.IsUnsigned != 0 {
+			if tb, ok := x.Type().Underlying().(*types.Basic); ok && (tb.Kind() == types.Int || tb.Kind() == types.Int64 || tb.Kind() == types.Uint || tb.Kind() == types.Uint64 || b.Kind() == types.Uint8 || b.Kind() == types.Uint16) {
+				return true, "converted from an unsigned value"
+			}
+		}
+		return s.nonNegative(x.X, at, depth+1)
+	case *ssa.ChangeType:
+		return s.nonNegative(x.X, at, depth+1)
+	case *ssa.Call:
+		if b, ok := x.Call.Value.(*ssa.Builtin); ok {
+			switch b.Name() {
+			case "len", "cap":
+				return true, "len/cap"
+			case "min":
+				all := true
+				for _, a := range x.Call.Args {
+					if ok, _ := s.nonNegative(a, at, depth+1); !ok {
+						all = false
+					}
+				}
+				return all, "min of values"
+			}
+		}
+		if callee := x.Call.StaticCallee(); callee != nil {
+			if callee.Name() == "MinInt" && pkgPathOf(callee) == "github.com/unixpickle/essentials" {
+				// min(a, b, ...) >= 0 iff all >= 0; variadic arguments sit in a slice
+				all := true
+				for _, a := range s.variadicElems(x) {
+					if ok, _ := s.nonNegative(a, at, depth+1); !ok {
+						all = false
+					}
+				}
+				return all, "MinInt of values"
+			}
+			if callee.Blocks != nil && strings.HasPrefix(pkgPathOf(callee), repoMod) && depth < 4 && callee.Signature.Results().Len() >= 1 {
+				all, any := true, false
+				for _, cb := range callee.Blocks {
+					if ret, ok := cb.Instrs[len(cb.Instrs)-1].(*ssa.Return); ok && len(ret.Results) >= 1 {
+						any = true
+						if ok, _ := s.nonNegative(ret.Results[0], cb, depth+2); !ok {
+							all = false
+						}
+					}
+				}
+				if all && any {
+					return true, "every value " + callee.Name() + " returns is non-negative"
+				}
+			}
+		}
+		return false, "result of " + calleeName(x)
+	case *ssa.Extract:
+		// (n, err) results of a repository function: same analysis on result #Index
+		if call, ok := x.Tuple.(*ssa.Call); ok {
+			if callee := call.Call.StaticCallee(); callee != nil && callee.Blocks != nil && strings.HasPrefix(pkgPathOf(callee), repoMod) && depth < 4 {
+				all, any := true, false
+				for _, cb := range callee.Blocks {
+					if ret, ok := cb.Instrs[len(cb.Instrs)-1].(*ssa.Return); ok && len(ret.Results) > x.Index {
+						// error returns carry a zero count: fine
+						if k, isC := constInt(ret.Results[x.Index]); isC && k >= 0 {
+							any = true
+							continue
+						}
+						any = true
+						if ok, _ := s.nonNegative(ret.Results[x.Index], cb, depth+2); !ok {
+							all = false
+						}
+					}
+				}
+				if all && any {
+					return true, "result of " + callee.Name() + " is non-negative on every return"
+				}
+			}
+		}
+		return false, "result #" + fmt.Sprint(x.Index) + " of a call"
+	case *ssa.BinOp:
+		switch x.Op {
+		case token.ADD, token.MUL, token.QUO, token.REM, token.SHR, token.AND:
+			okx, _ := s.nonNegative(x.X, at, depth+1)
+			oky, _ := s.nonNegative(x.Y, at, depth+1)
+			if okx && oky {
+				return true, "arithmetic of non-negative values"
+			}
+			if x.Op == token.AND && (okx || oky) {
+				return true, "masked with a non-negative value"
+			}
+		}
+		return false, "arithmetic that can be negative"
+	case *ssa.Phi:
+		for i, e := range x.Edges {
+			pred := x.Block().Preds[i]
+			if ok, _ := s.nonNegative(e, pred, depth+1); ok {
+				continue
+			}
+			if lowerBoundedAt(pred, e, x.Block()) {
+				continue
+			}
+			return false, "phi with an edge that can be negative"
+		}
+		return true, "every incoming value is non-negative"
+	case *ssa.UnOp:
+		if x.Op == token.MUL {
+			if fa, ok := x.X.(*ssa.FieldAddr); ok {
+				if f := fieldOf(fa); f != nil {
+					return s.fieldNonNegative(f, depth+1)
+				}
+			}
+		}
+	}
+	return false, fmt.Sprintf("%s (%T)", v.Name(), v)
+}
+
+// equalsLenMinus: the facts at `at` say v + k == len(S) for a constant k >= 0,
+// and (for k > 0) that len(S) is at least k (k == 1: len(S) != 0).
+func equalsLenMinus(at *ssa.BasicBlock, v ssa.Value) bool {
+	facts := factsAt(at)
+	for _, f := range facts {
+		be, ok := f.cond.(*ssa.BinOp)
+		if !ok || !((be.Op == token.EQL && f.taken) || (be.Op == token.NEQ && !f.taken)) {
+			continue
+		}
+		for _, pair := range [][2]ssa.Value{{be.X, be.Y}, {be.Y, be.X}} {
+			sum, lenSide := pair[0], pair[1]
+			call, isCall := lenSide.(*ssa.Call)
+			if !isCall {
+				continue
+			}
+			bi, isB := call.Call.Value.(*ssa.Builtin)
+			if !isB || bi.Name() != "len" {
+				continue
+			}
+			k := int64(0)
+			base := sum
+			if add, ok := sum.(*ssa.BinOp); ok && add.Op == token.ADD {
+				if kk, isC := constInt(add.Y); isC {
+					k, base = kk, add.X
+				}
+			}
+			if stripConv(base) != stripConv(v) || k < 0 {
+				continue
+			}
+			if k == 0 {
+				return true
+			}
+			if k == 1 {
+				// len(S) != 0 somewhere above
+				for _, g := range facts {
+					ge, ok := g.cond.(*ssa.BinOp)
+					if !ok {
+						continue
+					}
+					if isLenOf(ge.X, call.Call.Args[0]) {
+						if z, isC := constInt(ge.Y); isC && z == 0 && ((ge.Op == token.EQL && !g.taken) || (ge.Op == token.NEQ && g.taken) || (ge.Op == token.GTR && g.taken)) {
+							return true
+						}
+					}
+				}
+			}
+		}
+	}
+	return false
+}
+
+// fieldNonNegative: every store into the field, anywhere in the scope's
+// functions, stores a value that is non-negative where it is stored.
+func (s *decScope) fieldNonNegative(f *types.Var, depth int) (bool, string) {
+	stores, all := 0, true
+	for _, fn := range s.fns {
+		for _, b := range fn.Blocks {
+			for _, ins := range b.Instrs {
+				st, ok := ins.(*ssa.Store)
+				if !ok {
+					continue
+				}
+				fa, ok := st.Addr.(*ssa.FieldAddr)
+				if !ok || fieldOf(fa) != f {
+					continue
+				}
+				stores++
+				if ok, _ := s.nonNegative(st.Val, b, depth+1); !ok {
+					all = false
+				}
+			}
+		}
+	}
+	if stores > 0 && all {
+		return true, "every store into " + f.Name() + " writes a value that passed a non-negativity test"
+	}
+	return false, "field " + f.Name() + " can hold a negative value"
+}
+
+// variadicElems: the values stored into the slice literal of a variadic call.
+func (s *decScope) variadicElems(call *ssa.Call) []ssa.Value {
+	var res []ssa.Value
+	for _, a := range call.Call.Args {
+		sl, ok := a.(*ssa.Slice)
+		if !ok {
+			res = append(res, a)
+			continue
+		}
+		al, ok := sl.X.(*ssa.Alloc)
+		if !ok {
+			continue
+		}
+		for _, ref := range *al.Referrers() {
+			if ia, ok := ref.(*ssa.IndexAddr); ok {
+				for _, r2 := range *ia.Referrers() {
+					if st, ok := r2.(*ssa.Store); ok {
+						res = append(res, st.Val)
+					}
+				}
+			}
+		}
+	}
+	return res
+}
+
 // wrapProne: v is computed from unbounded operands by an operation that can
 // overflow (so that an upper-bound test on v alone says nothing about its sign).
 func (s *decScope) wrapProne(v ssa.Value, at *ssa.BasicBlock, depth int) bool {
@@ -533,6 +767,12 @@ func (s *decScope) ruleDA(rule string) {
 						c.ok(rule, key, ins.Pos(), "size is bounded: "+why)
 					} else {
 						c.bad(rule, key, ins.Pos(), "allocation size comes from the input without an upper bound: "+why)
+					}
+					// DA.SIGN: make panics on a negative size as well
+					if ok, why := s.nonNegative(sz, b, 0); ok {
+						c.ok(rule+".SIGN", key, ins.Pos(), "size cannot be negative: "+why)
+					} else {
+						c.bad(rule+".SIGN", key, ins.Pos(), "allocation size can be negative (makeslice panics): "+why)
 					}
 				}
 			}
